@@ -5,6 +5,7 @@ import (
 	"hash/fnv"
 	"sort"
 	"strings"
+	"sync/atomic"
 
 	"github.com/anishathalye/porcupine"
 )
@@ -99,6 +100,9 @@ func (o Out) String() string {
 	}
 	return "ok " + t + "[" + strings.Join(s, ",") + "]"
 }
+
+// ExpiredMet counts model steps that met a name past its TTL but not yet swept (reach probe).
+var ExpiredMet int64
 
 type rec struct {
 	name     int
@@ -214,6 +218,9 @@ func Step(s *State, in In, out Out) []*State {
 	}
 	r, present := s.find(in.Name)
 	var res []*State
+	if present && r.expiry <= s.now {
+		atomic.AddInt64(&ExpiredMet, 1)
+	}
 	if !present || r.expiry <= s.now {
 		// absent, or past its TTL but not swept: may be treated as absent
 		res = append(res, stepAbsent(s, in, out, present)...)
